@@ -8,8 +8,10 @@ require (
 	github.com/anishathalye/porcupine v1.3.0
 	github.com/innovationb1ue/RedisGO v0.0.0
 	go.etcd.io/etcd/client/pkg/v3 v3.6.0-alpha.0
+	go.etcd.io/etcd/pkg/v3 v3.6.0-alpha.0
 	go.etcd.io/etcd/raft/v3 v3.6.0-alpha.0
 	go.etcd.io/etcd/server/v3 v3.0.0-00010101000000-000000000000
+	go.uber.org/zap v1.21.0
 	pgregory.net/rapid v1.3.0
 )
 
@@ -28,10 +30,8 @@ require (
 	github.com/prometheus/procfs v0.7.3 // indirect
 	github.com/xiang90/probing v0.0.0-20190116061207-43a291ad63a2 // indirect
 	go.etcd.io/etcd/api/v3 v3.6.0-alpha.0 // indirect
-	go.etcd.io/etcd/pkg/v3 v3.6.0-alpha.0 // indirect
 	go.uber.org/atomic v1.7.0 // indirect
 	go.uber.org/multierr v1.8.0 // indirect
-	go.uber.org/zap v1.21.0 // indirect
 	golang.org/x/net v0.0.0-20220919171627-f8f703f97925 // indirect
 	golang.org/x/sys v0.0.0-20220728004956-3c1f35247d10 // indirect
 	golang.org/x/text v0.3.7 // indirect
